@@ -142,11 +142,11 @@ def named_array(ex, st, seq: VSeq):
     nm = z3.Const(fresh_name("arr"), A)
     j = z3.Int(fresh_name("nj"))
     body = z3.simplify(a[j])
-    try:
-        # either side may trigger the definition: the named cell, or the expression it abbreviates
-        fact = z3.ForAll([j], z3.Implies(z3.And(0 <= j, j < seq.ln), nm[j] == body), patterns=[nm[j], body])
-    except z3.Z3Exception:
-        fact = z3.ForAll([j], z3.Implies(z3.And(0 <= j, j < seq.ln), nm[j] == body), patterns=[nm[j]])
+    # two copies of the definition: one triggered by the named cell, one whose triggers z3 infers itself from the
+    # abbreviated expression (inferred triggers are built after z3's own normalisation of arithmetic, so they match
+    # ground terms whatever argument order that normalisation chose; hand-written arithmetic triggers do not)
+    fact = z3.And(z3.ForAll([j], z3.Implies(z3.And(0 <= j, j < seq.ln), nm[j] == body), patterns=[nm[j]]),
+                  z3.ForAll([j], z3.Implies(z3.And(0 <= j, j < seq.ln), body == nm[j])))
     st.pc.append(fact)
     cache[key] = (nm, fact)
     return VSeq([nm], seq.ln, seq.et, seq.kind)
@@ -321,6 +321,29 @@ def call_builtin(ex, st, name, args, kwargs, node):
         return VInt(r)
     if name == "ceil_":
         return math_model(ex, st, "ceil", args, line)
+    if name == "same":
+        a, b = args
+        if isinstance(a, VSeq) and isinstance(b, VSeq) and len(a.comps) == len(b.comps):
+            # identical as values of the model: same length and the same cell arrays (no quantifier needed)
+            return VBool(z3.And(a.ln == b.ln, *[x == y for x, y in zip(a.comps, b.comps)]))
+        return VBool(ex.equal(st, a, b))
+    if name == "nodup":
+        from . import tables
+        t = args[0]
+        fv = z3.Int("nd%f")
+        return VBool(z3.ForAll([fv], tables.tcount(t.comps[0], t.comps[1], as_int(args[1]), fv) <= 1,
+                               patterns=[tables.tcount(t.comps[0], t.comps[1], as_int(args[1]), fv)]))
+    if name in ("tcount", "tsize", "lcount"):
+        from . import tables
+        ex.lib_used.add("T-occ2 / T-rangesum counting functions (see pyvc/tables.py)")
+        if name == "tcount":
+            t = args[0]
+            return VInt(tables.tcount(t.comps[0], t.comps[1], as_int(args[1]), as_int(args[2])))
+        if name == "tsize":
+            t = args[0]
+            return VInt(tables.tsize(t.comps[1], as_int(args[1])))
+        lst = named_array(ex, st, args[0])
+        return VInt(tables.lcnt(lst.comps[0], as_int(args[1]), as_int(args[2]), as_int(args[3])))
     if name in ("le_bytes", "be_bytes"):
         from . import streams
         w = as_int(args[2])
@@ -578,7 +601,8 @@ def exec_with(ex, s, st):
 # ---------------------------------------------------------------------------------------------
 
 
-REAL_BUILTINS = {"f32", "ln", "exp_", "log2_", "pow_", "ceil_", "le_bytes", "be_bytes", "upd", "rem", "allkeys"}
+REAL_BUILTINS = {"f32", "ln", "exp_", "log2_", "pow_", "ceil_", "le_bytes", "be_bytes", "upd", "rem", "allkeys",
+                 "tcount", "tsize", "lcount", "nodup", "same"}
 
 
 def call_spec(ex, st, name, args, kwargs):
